@@ -239,3 +239,189 @@ fn pmh_batches_g<H: Hasher + Default>(v: Pv, m: usize, batches: &[&[(u64, f64)]]
         }
     }
 }
+
+// =====================================================================================================
+// unweighted sketchers behind one object-safe trait (items are u64)
+
+use probminhash::densminhash::{OptDensMinHash, RevOptDensMinHash};
+use probminhash::setsketcher::{SetSketchParams, SetSketcher};
+use probminhash::superminhasher::SuperMinHash;
+use probminhash::superminhasher2::SuperMinHash2;
+use twox_hash::XxHash32;
+
+pub trait USk {
+    fn sketch(&mut self, x: u64);
+    /// returns false if the slice call reported an error
+    fn sketch_slice(&mut self, xs: &[u64]) -> bool;
+    /// finishing step (densified sketchers), no-op otherwise
+    fn finish(&mut self);
+    fn reinit(&mut self);
+    /// canonical bit image of every view of the sketch
+    fn bits(&self) -> Vec<u64>;
+    /// stored item hashes, if the sketch stores hashes
+    fn stored_hashes(&self) -> Option<Vec<u64>>;
+}
+
+#[derive(Clone, Copy, Debug, PartialEq)]
+pub enum UKind {
+    SmhF32,
+    SmhF64,
+    SmhF64NoHash,
+    Smh2U64,
+    Smh2U32,
+    SetU16(f64, f64, u64), // b, a, q
+    SetU32(f64, f64, u64),
+    OptF32,
+    OptF64,
+    RevF32,
+    RevF64,
+}
+
+impl UKind {
+    pub fn name(&self) -> String {
+        format!("{:?}", self)
+    }
+    pub fn is_dens(&self) -> bool {
+        matches!(self, UKind::OptF32 | UKind::OptF64 | UKind::RevF32 | UKind::RevF64)
+    }
+    /// hash of an item as the sketcher computes it
+    pub fn item_hash(&self, x: u64) -> u64 {
+        use std::hash::BuildHasher;
+        match self {
+            UKind::Smh2U32 => BuildHasherDefault::<XxHash32>::default().hash_one(x),
+            UKind::SmhF64NoHash => BuildHasherDefault::<NoHashHasher>::default().hash_one(x),
+            _ => BuildHasherDefault::<FnvHasher>::default().hash_one(x),
+        }
+    }
+}
+
+macro_rules! impl_smh {
+    ($f:ty, $h:ty) => {
+        impl USk for SuperMinHash<$f, u64, $h> {
+            fn sketch(&mut self, x: u64) {
+                SuperMinHash::sketch(self, &x).unwrap();
+            }
+            fn sketch_slice(&mut self, xs: &[u64]) -> bool {
+                SuperMinHash::sketch_slice(self, xs).is_ok()
+            }
+            fn finish(&mut self) {}
+            fn reinit(&mut self) {
+                SuperMinHash::reinit(self)
+            }
+            fn bits(&self) -> Vec<u64> {
+                self.get_hsketch().iter().map(|v| (*v as f64).to_bits()).collect()
+            }
+            fn stored_hashes(&self) -> Option<Vec<u64>> {
+                None
+            }
+        }
+    };
+}
+impl_smh!(f32, FnvHasher);
+impl_smh!(f64, FnvHasher);
+impl_smh!(f64, NoHashHasher);
+
+macro_rules! impl_smh2 {
+    ($i:ty, $h:ty) => {
+        impl USk for SuperMinHash2<$i, u64, $h> {
+            fn sketch(&mut self, x: u64) {
+                SuperMinHash2::sketch(self, &x).unwrap();
+            }
+            fn sketch_slice(&mut self, xs: &[u64]) -> bool {
+                SuperMinHash2::sketch_slice(self, xs).is_ok()
+            }
+            fn finish(&mut self) {}
+            fn reinit(&mut self) {
+                SuperMinHash2::reinit(self)
+            }
+            fn bits(&self) -> Vec<u64> {
+                self.get_hsketch().iter().map(|v| *v as u64).collect()
+            }
+            fn stored_hashes(&self) -> Option<Vec<u64>> {
+                Some(self.get_hsketch().iter().map(|v| *v as u64).collect())
+            }
+        }
+    };
+}
+impl_smh2!(u64, FnvHasher);
+impl_smh2!(u32, XxHash32);
+
+macro_rules! impl_set {
+    ($i:ty) => {
+        impl USk for SetSketcher<$i, u64, FnvHasher> {
+            fn sketch(&mut self, x: u64) {
+                SetSketcher::sketch(self, &x).unwrap();
+            }
+            fn sketch_slice(&mut self, xs: &[u64]) -> bool {
+                SetSketcher::sketch_slice(self, xs).is_ok()
+            }
+            fn finish(&mut self) {}
+            fn reinit(&mut self) {
+                SetSketcher::reinit(self)
+            }
+            fn bits(&self) -> Vec<u64> {
+                self.get_signature().iter().map(|v| *v as u64).collect()
+            }
+            fn stored_hashes(&self) -> Option<Vec<u64>> {
+                None
+            }
+        }
+    };
+}
+impl_set!(u16);
+impl_set!(u32);
+
+macro_rules! impl_dens {
+    ($t:ident, $f:ty) => {
+        impl USk for $t<$f, u64, FnvHasher> {
+            fn sketch(&mut self, x: u64) {
+                $t::sketch(self, &x);
+            }
+            fn sketch_slice(&mut self, xs: &[u64]) -> bool {
+                $t::sketch_slice(self, xs).is_ok()
+            }
+            fn finish(&mut self) {
+                self.end_sketch()
+            }
+            fn reinit(&mut self) {
+                $t::reinit(self)
+            }
+            fn bits(&self) -> Vec<u64> {
+                let mut v: Vec<u64> = self.get_hsketch().iter().map(|v| (*v as f64).to_bits()).collect();
+                v.extend(self.get_hsketch_u64());
+                v.extend(self.get_hsketch_u32().iter().map(|x| *x as u64));
+                v
+            }
+            fn stored_hashes(&self) -> Option<Vec<u64>> {
+                Some(self.get_hsketch_u64())
+            }
+        }
+    };
+}
+impl_dens!(OptDensMinHash, f32);
+impl_dens!(OptDensMinHash, f64);
+impl_dens!(RevOptDensMinHash, f32);
+impl_dens!(RevOptDensMinHash, f64);
+
+pub fn make_usk(kind: UKind, m: usize) -> Box<dyn USk> {
+    match kind {
+        UKind::SmhF32 => Box::new(SuperMinHash::<f32, u64, FnvHasher>::new(m, Default::default())),
+        UKind::SmhF64 => Box::new(SuperMinHash::<f64, u64, FnvHasher>::new(m, Default::default())),
+        UKind::SmhF64NoHash => Box::new(SuperMinHash::<f64, u64, NoHashHasher>::new(m, Default::default())),
+        UKind::Smh2U64 => Box::new(SuperMinHash2::<u64, u64, FnvHasher>::new(m, Default::default())),
+        UKind::Smh2U32 => Box::new(SuperMinHash2::<u32, u64, XxHash32>::new(m, Default::default())),
+        UKind::SetU16(b, a, q) => Box::new(SetSketcher::<u16, u64, FnvHasher>::new(SetSketchParams::new(b, m as u64, a, q), Default::default())),
+        UKind::SetU32(b, a, q) => Box::new(SetSketcher::<u32, u64, FnvHasher>::new(SetSketchParams::new(b, m as u64, a, q), Default::default())),
+        UKind::OptF32 => Box::new(OptDensMinHash::<f32, u64, FnvHasher>::new(m, Default::default())),
+        UKind::OptF64 => Box::new(OptDensMinHash::<f64, u64, FnvHasher>::new(m, Default::default())),
+        UKind::RevF32 => Box::new(RevOptDensMinHash::<f32, u64, FnvHasher>::new(m, Default::default())),
+        UKind::RevF64 => Box::new(RevOptDensMinHash::<f64, u64, FnvHasher>::new(m, Default::default())),
+    }
+}
+
+/// documented choice of a and q for SetSketch: a >= ln(m/eps)/b, q >= log_b(m n a / eps)
+pub fn setsketch_a_q(b: f64, m: u64, nmax: f64, eps: f64) -> (f64, u64) {
+    let a = ((m as f64 / eps).ln() / b).ceil().max(1.);
+    let q = ((m as f64 * nmax * a / eps).ln() / b.ln()).ceil() as u64;
+    (a, q)
+}
